@@ -66,6 +66,8 @@ def gen_lines(rng, w, cap, digs, n):
             a, b = signed(rng, w, md), signed(rng, w, md)
             if rng.chance(1, 3):
                 b = rng.choice([a, -a, a + 1, a - 1])
+                if abs(b).bit_length() > cap * w:       # a + 1 of the largest representable value is not an operand
+                    b = a
             out.append("bn_cmp %s %s" % (hx(a), hx(b)))
         elif k < 79:
             a = signed(rng, w, 2)
